@@ -19,8 +19,8 @@ import warnings
 from pvmon import gen
 
 PLAN = {
-    "quick": {"configs": ["ext1", "ext0", "ovf"], "nshards": 6, "nshards_ovf": 4, "timeout": 900},
-    "thorough": {"configs": ["ext1", "ext0", "ovf"], "nshards": 12, "nshards_ovf": 8, "timeout": 3400, "suite": ["ext1"]},
+    "quick": {"configs": ["ext1", "ext0", "ovf"], "nshards": 6, "nshards_ovf": 4, "timeout": 900, "week_start": [0, 6, 0, 5, 2]},
+    "thorough": {"configs": ["ext1", "ext0", "ovf"], "nshards": 12, "nshards_ovf": 8, "timeout": 3400, "suite": ["ext1"], "week_start": [0, 6, 0, 5, 2]},
 }
 DECIDING = ["parse.outcome", "strict.reject", "backend_join"]
 FLOORS = {"quick": {"parse.outcome": 500000, "strict.reject": 300, "backend_join": 8000},
